@@ -154,19 +154,47 @@ type uriSpec struct {
 	qk, qv                   string
 	rawQuery                 string
 	useArgs                  bool
+	bytesAPI                 bool // the …Bytes setters
+	twice                    bool // every component was set to something else first
 }
+
+var reusedCookie protocol.Cookie
 
 func uriRT(s uriSpec) string {
 	var u protocol.URI
-	u.SetScheme(s.scheme)
-	u.SetHost(s.host)
-	u.SetPath(s.path)
+	if s.twice {
+		// the setters are called a second time: the final values are what counts
+		u.SetScheme("ftp")
+		u.SetHost("Earlier.Host:1")
+		u.SetPath("/earlier/path")
+		u.SetQueryString("stale=1&earlier=2")
+		u.QueryArgs().Len() // (the earlier query was looked at)
+		u.SetHash("earlierfrag")
+	}
+	if s.bytesAPI {
+		u.SetSchemeBytes([]byte(s.scheme))
+		u.SetHostBytes([]byte(s.host))
+		u.SetPathBytes([]byte(s.path))
+	} else {
+		u.SetScheme(s.scheme)
+		u.SetHost(s.host)
+		u.SetPath(s.path)
+	}
 	if s.useArgs {
+		if s.twice {
+			u.QueryArgs().Reset()
+		}
 		u.QueryArgs().Add(s.qk, s.qv)
+	} else if s.bytesAPI {
+		u.SetQueryStringBytes([]byte(s.rawQuery))
 	} else {
 		u.SetQueryString(s.rawQuery)
 	}
-	u.SetHash(s.hash)
+	if s.bytesAPI {
+		u.SetHashBytes([]byte(s.hash))
+	} else {
+		u.SetHash(s.hash)
+	}
 	full := string(u.FullURI())
 	var v protocol.URI
 	v.Parse(nil, []byte(full))
@@ -308,6 +336,7 @@ func work(w *mon.W) {
 		r := c.R
 		for it := 0; it < 500; it++ {
 			s := uriSpec{scheme: r.Str("http", "https"), host: r.Str("h", "h.com:80", "[::1]:8080", "H.Com", "[2001:db8::1]", "a-b.example:65535"), path: "/" + rs(r, 6, alphaR), hash: rs(r, 4, alphaR)}
+			s.bytesAPI, s.twice = r.Bool(), r.Chance(3)
 			if r.Bool() {
 				s.useArgs = true
 				s.qk, s.qv = rs(r, 3, alphaR)+"k", rs(r, 4, alphaR)
@@ -350,6 +379,8 @@ func work(w *mon.W) {
 			}
 			if r.Bool() {
 				ck.SetPath("/" + legal(rs(r, 4, alphaR)))
+			} else if r.Chance(4) {
+				ck.SetPath(r.Str("/..", "/a/..", "/a/../..", "x", "/./"))
 			}
 			if r.Bool() {
 				ck.SetMaxAge(1 + r.Intn(100000))
@@ -387,6 +418,26 @@ func work(w *mon.W) {
 			var d protocol.Cookie
 			var err error
 			pv, _ := mon.Guard(func() { err = d.Parse(s) })
+			// and into a long-lived cookie object that held something else before
+			reusedCookie.SetKey("earlier")
+			reusedCookie.SetValue("earlier-value")
+			reusedCookie.SetDomain("earlier.example")
+			reusedCookie.SetPath(r.Str("/..", "/earlier", "/a/../..", "/"))
+			if pv == nil && err == nil {
+				if e2 := reusedCookie.Parse(s); e2 != nil || reusedCookie.String() != d.String() {
+					c.Detail = func() interface{} { return map[string]interface{}{"family": "cookie", "cookie": s} }
+					c.Violate("cookie-reused-object", "a reused Cookie object parses %q differently from a fresh one: %q (err %v) vs %q", s, reusedCookie.String(), e2, d.String())
+					return
+				}
+			}
+			// canary: nothing a cookie or URI operation does may change what an untouched URI reports
+			var canary protocol.URI
+			canary.Parse(nil, []byte("http://canary.host"))
+			if p1, p2 := string((&protocol.URI{}).Path()), string(canary.Path()); p1 != "/" || p2 != "/" {
+				c.Detail = func() interface{} { return map[string]interface{}{"family": "cookie", "cookie": s} }
+				c.Violate("shared-state-corrupted", "after handling cookie %q an untouched URI reports path %q and http://canary.host parses to path %q (want / and /)", s, p1, p2)
+				return
+			}
 			exp := ck.Expire()
 			if ck.MaxAge() > 0 {
 				exp = protocol.CookieExpireUnlimited
